@@ -137,9 +137,13 @@ Proof.
   - exists None. cbn [app]. apply annot_opt_none. apply Hr. reflexivity.
   - exists (Some mk_empty_default). cbn [app]. rewrite <- app_assoc. cbn [app]. apply Parses_opt_some.
     unfold parse_annotations. eapply Parses_bind; [apply exp_token_ok; exact Ho|]. cbv beta.
-    eapply Parses_bind; [|apply Parses_ret]. apply take_until_ok.
-    + eapply Forall_impl; [|exact Hb]. intros t Ht. cbv beta in Ht. cbn [existsb]. rewrite (tt_eqb_neq _ _ Ht). reflexivity.
-    + cbn [existsb]. rewrite Hc. reflexivity.
+    eapply Parses_bind.
+    { apply Parses_opt_some. unfold annotation_body. eapply Parses_bind.
+      - apply take_until_ok.
+        + eapply Forall_impl; [|exact Hb]. intros t Ht. cbv beta in Ht. cbn [existsb]. rewrite (tt_eqb_neq _ _ Ht). reflexivity.
+        + cbn [existsb]. rewrite Hc. reflexivity.
+      - cbv beta. cbn [snd]. apply Parses_ret. }
+    cbv beta iota. apply Parses_ret.
 Qed.
 
 (* the head of  ats ++ r  when r starts with a token of a type in S *)
